@@ -176,16 +176,16 @@ def load_reference():
     return _REF
 
 
-def restore_local_names(tree, modname, log=None):
+def restore_local_names(tree, modname, log=None, fq=None):
     """rename locals that were renamed relative to the reference back to their reference names (in place);
     -> number of names restored"""
     ref = load_reference().get(modname)
     if not ref:
         return 0
     restored = 0
-    for q, fn in functions_with_qualnames(tree):
+    for q, fn in (fq or functions_with_qualnames)(tree):
         rb = ref.get(q)
-        if not rb or q == "__functions__":
+        if not rb or q.startswith("__"):
             continue
         ref_names = [b[0] for b in rb]
         # cheap test first: which names does the function bind
